@@ -14,7 +14,8 @@ import itertools
 import random
 from dataclasses import field as dc_field
 from dataclasses import make_dataclass
-from typing import Any, NamedTuple, NotRequired, Optional, TypedDict
+import types
+from typing import Annotated, Any, NamedTuple, NotRequired, Optional, Required, TypedDict
 
 import lib
 from lib import CoqEval, coq_list, coq_str
@@ -87,7 +88,25 @@ def materialise(kind, lm):
         return NamedTuple(f"NT{n}", [(f["name"], py[f["type"]]) for f in lm]) if all(f["required"] for f in lm) else \
             _namedtuple_with_defaults(f"NT{n}", lm, py)
     if kind == "typed_dict":
-        return TypedDict(f"TD{n}", {f["name"]: (py[f["type"]] if f["required"] else NotRequired[py[f["type"]]]) for f in lm})
+        # the same logical model in the different ways a TypedDict can say which keys are required
+        tname = {"int": "int", "str": "str", "optint": "Optional[int]"}
+        spelling = n % 6
+        if spelling == 0:
+            return TypedDict(f"TD{n}", {f["name"]: (py[f["type"]] if f["required"] else NotRequired[py[f["type"]]]) for f in lm})
+        if spelling == 1:       # total=False, required keys marked
+            return TypedDict(f"TD{n}", {f["name"]: (Required[py[f["type"]]] if f["required"] else py[f["type"]]) for f in lm}, total=False)
+        if spelling == 2:       # the same with stringified annotations (from __future__ import annotations)
+            return TypedDict(f"TD{n}", {f["name"]: (f"Required[{tname[f['type']]}]" if f["required"] else tname[f["type"]]) for f in lm},
+                             total=False)
+        if spelling == 3:       # stringified NotRequired under total=True
+            return TypedDict(f"TD{n}", {f["name"]: (tname[f["type"]] if f["required"] else f"NotRequired[{tname[f['type']]}]") for f in lm})
+        if spelling == 4:       # markers wrapped in Annotated, stringified
+            return TypedDict(f"TD{n}", {f["name"]: (f"Annotated[Required[{tname[f['type']]}], 'm']" if f["required"]
+                                                     else f"Annotated[{tname[f['type']]}, 'm']") for f in lm}, total=False)
+        # required keys in a total base, optional keys in a non-total subclass
+        base = TypedDict(f"TDB{n}", {f["name"]: py[f["type"]] for f in lm if f["required"]})
+        return types.new_class(f"TD{n}", (base,), {"total": False},
+                               lambda ns: ns.update({"__annotations__": {f["name"]: py[f["type"]] for f in lm if not f["required"]}}))
     if kind == "attrs":
         attrib = {}
         for f in lm:
